@@ -403,3 +403,30 @@ PROPS['C04'] = {
     'technique': 'static analysis: codec sequence extraction from MIR + comparison with a specification table',
     'assumptions': COMMON_ASSUMPTIONS,
 }
+
+PROPS['C11'] = {
+    'modules': ['c11', 'c10', 'c03'],
+    'level': 'other',
+    'quick_configs': ['default'],
+    'thorough_configs': ALL,
+    'controls': ['R11.1', 'R11.2'],
+    'floors': {'default': {'R11.1': 7, 'R11.3': 4, 'R10.4.hint': 1, 'R3.8': 1}},
+    'rule_text': 'one obligation per raw device-write site (closed set; each must be dominated by a successful seek whose '
+                 'offset provenance is in an allowed class), per clipping site (File::write, DiskSlice read/write/seek), '
+                 'plus the allocator bounds (hint clamp, padding entries; C10 rules) and the truncate order (C03 rule)',
+    'explanation': 'The raw device-write sites of the library form a closed, enumerated set (calls that reach a device '
+                   'write while a guard of the `disk` cell is alive, the mirrored write of DiskSlice, and the pass-through '
+                   'FS adapter). For each, the seek that dominates it (Ok edge) has an offset whose data provenance is one '
+                   'of: offset_from_cluster(c) [+ in-cluster offset], begin + offset [+ i*size] of a bounded slice, the '
+                   'entry editor\'s position, one of the two status-byte constants, or offset_from_sector(fs_info_sector). '
+                   'A new write site outside these classes, or one without a seek, is reported. Lengths are clipped: '
+                   'File::write by cluster_size - offset % cluster_size, DiskSlice by size - offset, DiskSlice::seek '
+                   'rejects offsets beyond the slice. The allocator never hands out entries at or past total_clusters + 2 '
+                   '(hint strictly below; padding entries marked) and truncate terminates the chain before freeing. Not '
+                   'decided: that the cluster written belongs to this file (ownership is a runtime property).',
+    'claim': 'Closed classified write sites with seek pairing, offset provenance and length clipping on all paths; cluster '
+             'ownership is not decided.',
+    'level_note': 'offset classes are decided by data dependence (over-approximate: may miss, cannot alarm)',
+    'technique': 'static analysis: write-site enumeration, dominance and data-dependence classification on MIR',
+    'assumptions': COMMON_ASSUMPTIONS + ['cluster numbers passed to offset_from_cluster are valid (premise shared with C17/C20)'],
+}
